@@ -504,13 +504,20 @@ Section WithCk.
                 else if rr_seq x <? rw_seq e then nr :: l
                 else e :: put_row x r
     end.
-  Fixpoint update_dump (key : bytes) (f : chan_dump -> chan_dump) (ds : list chan_dump) : list chan_dump :=
+  (* update the dump of [key] in place; a channel the store does not list yet is inserted in key order *)
+  Fixpoint update_in_place (key : bytes) (f : chan_dump -> chan_dump) (ds : list chan_dump) : list chan_dump :=
     match ds with
-    | [] => [f (empty_dump key)]
-    | d :: r => if bytes_eqb (ch_key d) key then f d :: r
-                else if bytes_ltb key (ch_key d) then f (empty_dump key) :: ds
-                else d :: update_dump key f r
+    | [] => []
+    | d :: r => if bytes_eqb (ch_key d) key then f d :: r else d :: update_in_place key f r
     end.
+  Fixpoint insert_dump (x : chan_dump) (ds : list chan_dump) : list chan_dump :=
+    match ds with
+    | [] => [x]
+    | d :: r => if bytes_ltb (ch_key x) (ch_key d) then x :: ds else d :: insert_dump x r
+    end.
+  Definition update_dump (key : bytes) (f : chan_dump -> chan_dump) (ds : list chan_dump) : list chan_dump :=
+    if existsb (fun d => bytes_eqb (ch_key d) key) ds then update_in_place key f ds
+    else insert_dump (f (empty_dump key)) ds.
 
   (* the metadata batch of importMessageBackupChannelStream *)
   Definition install_meta (h : raw_chan) (d : chan_dump) : chan_dump :=
